@@ -55,7 +55,8 @@ ob("enc_a85_word_value", ["C05", "C16"], "enc.rs", functions=["enc::word_85", "e
    bound="all 2^40 five-byte groups (digits and non-digits)")
 for p_ in range(0, 7):
     ob("enc_a85_dec_p%d" % p_, ["C05", "C16"], "enc.rs", unwind=p_ + 4, cuts=X1_ERR, stubs=[FMT_STUB],
-       tier="quick" if p_ <= 3 else "thorough", timeout=1800,
+       unwindset=[(r"verif_h_enc::same$", 0, max(4, 4 * p_) + 2)],
+       tier="quick" if p_ <= 2 else "thorough", timeout=2400,
        functions=["enc::decode_85", "enc::word_85", "enc::sym_85"],
        bound="all inputs of %d arbitrary bytes followed by the EOD marker '~>'" % p_)
 ob("enc_w_a85_ws", ["C05"], "enc.rs", unwind=8, cuts=X1_ERR, stubs=[FMT_STUB],
@@ -128,7 +129,7 @@ ob("lex_charsets", ["C03"], "lexer.rs", unwind=12, cuts=X1_ERR, functions=["pars
 for l in (1, 2, 3, 4):
     ob("lex_next_vs_ref_l%d" % l, ["C03", "C01"], "lexer.rs", unwind=l + 2, unwindset=MEMCHR, unwindset_optional=True,
        cuts=X1_ERR, stubs=[FMT_STUB],
-       tier="quick" if l <= 3 else "thorough", timeout=1800, mem_gb=12, functions=LEXFN,
+       tier="quick" if l <= 2 else "thorough", timeout=1800, mem_gb=12, functions=LEXFN,
        bound="all buffers of %d bytes; first and second token (range and cursor) against the reference tokenizer" % l)
 for l in (2, 3):
     ob("lex_peek_l%d" % l, ["C03", "C01"], "lexer.rs", unwind=l + 2, unwindset=MEMCHR, unwindset_optional=True, cuts=X1_ERR,
@@ -154,14 +155,16 @@ SLFN = ["parser::lexer::str::StringLexer::next_lexeme", "parser::lexer::str::Str
         "parser::lexer::str::StringLexer::peek_byte", "parser::lexer::str::StringLexer::back"]
 for l in (1, 2, 3, 4, 5):
     ob("strlex_lit_l%d" % l, ["C03", "C01"], "strlex.rs", unwind=l + 3, cuts=X1_ERR, stubs=[FMT_STUB],
-       tier="quick" if l <= 3 else "thorough", timeout=2400, mem_gb=12, functions=SLFN,
+       unwindset=[(r"StringLexer::<'_>::next_lexeme$", None, l // 2 + 2), (r"StringLexer::<'_>::next_lexeme$", 0, 4)],
+       tier="infeasible", timeout=2400, mem_gb=12, functions=SLFN,
        bound="all %d-byte texts after '(' : decoded bytes, end detection and consumed length vs the reference" % l)
-ob("strlex_octal3", ["C03"], "strlex.rs", unwind=6, cuts=X1_ERR, stubs=[FMT_STUB], timeout=900, functions=SLFN,
+ob("strlex_octal3", ["C03"], "strlex.rs", tier="infeasible", unwind=6, cuts=X1_ERR, stubs=[FMT_STUB], timeout=900, functions=SLFN,
+   unwindset=[(r"StringLexer::<'_>::next_lexeme$", None, 2), (r"StringLexer::<'_>::next_lexeme$", 0, 4)],
    bound="all 512 three-digit octal escapes followed by a non-octal digit")
 HLFN = ["parser::lexer::str::HexStringLexer::next_hex_byte", "parser::lexer::str::HexStringLexer::next_non_whitespace_char"]
 for l in (1, 2, 3, 4):
     ob("strlex_hex_l%d" % l, ["C03", "C01"], "strlex.rs", unwind=l + 3, cuts=X1_ERR, stubs=[FMT_STUB],
-       tier="quick" if l <= 3 else "thorough", timeout=2400, mem_gb=12, functions=HLFN,
+       tier="quick" if l <= 2 else "thorough", timeout=2400, mem_gb=12, functions=HLFN,
        bound="all %d-byte texts after '<'" % l)
 
 # ---------------------------------------------------------------------------------------------------------------------
@@ -193,13 +196,15 @@ X1_PAGE = X1_ALL + ["object::types::PagesNode", "object::types::Page", "object::
 for h, t, uw in [("types_page_flat2", "quick", 7), ("types_page_nested", "quick", 9), ("types_page_empty_mid", "quick", 10),
                  ("types_page_bushy", "quick", 15), ("types_page_chain4", "quick", 10), ("types_page_chain13", "quick", 19),
                  ("types_page_empty", "quick", 5), ("types_page_kids_eq_count", "quick", 10)]:
-    ob(h, ["C07"], "types.rs", unwind=uw, cuts=X1_PAGE, stubs=[FMT_STUB, RS_STUB], tier=t, timeout=2400, mem_gb=12, functions=PGFN,
+    # NOT REGISTERED (tier "infeasible"): every shape, even the root without kids, ran out of 12 GB / 1600 s -- the typed nodes live
+    # in ~700-byte Arc allocations that CBMC does not constant-propagate, so page_limited's match and loop are unwound blindly.
+    ob(h, ["C07"], "types.rs", unwind=uw, cuts=X1_PAGE, stubs=[FMT_STUB, RS_STUB], tier="infeasible", timeout=2400, mem_gb=12, functions=PGFN,
        bound="one concrete tree shape (%s) with accurate counts, every page index 0..=count+2" % h[11:])
-ob("types_page_descent_counts", ["C07"], "types.rs", unwind=10, cuts=X1_PAGE, stubs=[FMT_STUB, RS_STUB], timeout=1200, functions=PGFN,
+ob("types_page_descent_counts", ["C07"], "types.rs", tier="infeasible", unwind=10, cuts=X1_PAGE, stubs=[FMT_STUB, RS_STUB], timeout=1200, functions=PGFN,
    bound="root with 3 tree kids, every (c1,c2,c3) in u32^3 with c1+c2+c3 <= u32::MAX, every u32 page index")
-ob("types_page_hostile_counts", ["C14"], "types.rs", unwind=10, cuts=X1_PAGE, stubs=[FMT_STUB, RS_STUB], timeout=1200, functions=PGFN,
+ob("types_page_hostile_counts", ["C14"], "types.rs", tier="infeasible", unwind=10, cuts=X1_PAGE, stubs=[FMT_STUB, RS_STUB], timeout=1200, functions=PGFN,
    bound="same shape, ARBITRARY /Count values (incl. overflowing sums): no panic")
-ob("types_page_self_cycle", ["C14"], "types.rs", unwind=19, cuts=X1_PAGE, stubs=[FMT_STUB, RS_STUB], timeout=1200, functions=PGFN,
+ob("types_page_self_cycle", ["C14"], "types.rs", tier="infeasible", unwind=19, cuts=X1_PAGE, stubs=[FMT_STUB, RS_STUB], timeout=1200, functions=PGFN,
    bound="page tree whose only kid is itself, every count and index: error within the depth budget (recursion unwinding assertion)",
    unwind_is_violation=True)
 ob("types_inherit_boxes", ["C07"], "types.rs", unwind=7, cuts=X1_PAGE, stubs=[FMT_STUB, RS_STUB], timeout=1200,
@@ -214,11 +219,44 @@ ob("types_inherit_resources", ["C07"], "types.rs", unwind=7, cuts=X1_PAGE, stubs
 # ---------------------------------------------------------------------------------------------------------------------
 import os as _os, re as _re
 II_STUB = "content::inline_image -> Err (X8: BI..ID..EI is outside the claim; avoids a Kani compiler ICE)"
-_src = open(_os.path.join(_os.path.dirname(_os.path.abspath(__file__)), "content.rs")).read()
-CONTENT_OPS = _re.findall(r"^(?:harness|nullary|unary_num|unary_name)!\((content_op_\w+),", _src, _re.M)
-for h in CONTENT_OPS:
-    ob(h, ["C08"], "content.rs", unwind=8, cuts=X1_ALL, stubs=[FMT_STUB, II_STUB], timeout=900, functions=["content::OpBuilder::add"],
-       bound="operator keyword(s) %s with well-formed operands; every finite f32 / every i32 numeric operand" % h[11:])
+import json as _json
+CONTENT_GROUPS = _json.load(open(_os.path.join(_os.path.dirname(_os.path.abspath(__file__)), "content_groups.json")))
+CONTENT_THOROUGH = {"content_grp_path_c", "content_grp_matrix", "content_grp_cmyk", "content_grp_other_color", "content_grp_dash",
+                    "content_grp_marked", "content_grp_missing"}
+for g, ops_ in CONTENT_GROUPS.items():
+    ob(g, ["C08"], "content.rs", unwind=24 if g == "content_grp_ri" else 8, cuts=X1_ALL, stubs=[FMT_STUB, II_STUB],
+       timeout=3600 if g in CONTENT_THOROUGH else 1500, mem_gb=24 if g == "content_grp_dash" else 12,
+       tier="thorough" if g in CONTENT_THOROUGH else "quick",
+       functions=["content::OpBuilder::add"],
+       bound="operator keywords %s with well-formed operands; every finite f32 / every i32 numeric operand" % " ".join(ops_))
+
+# ---------------------------------------------------------------------------------------------------------------------
+# font.rs: C19 (width table)
+# ---------------------------------------------------------------------------------------------------------------------
+WFN = ["font::Widths::_set", "font::Widths::get", "font::Widths::ensure_cid"]
+for f in (0, 1, 2, 3, 5):
+    ob("font_widths_step_first%d" % f, ["C19"], "font.rs", unwind=16, timeout=1200, mem_gb=12, functions=WFN,
+       tier="quick" if f in (0, 2) else "thorough",
+       bound="insertion step from every table with first_char=%d, 0..=3 entries, into every code 0..=8; entries/default/width over "
+             "all u16 values; every queried code 0..=14" % f)
+ob("font_widths_get", ["C19"], "font.rs", unwind=6, timeout=600, functions=["font::Widths::get"],
+   bound="tables of 0..=3 entries, every first_char and every queried code in usize")
+ob("font_widths_commute", ["C19"], "font.rs", unwind=16, timeout=1200, mem_gb=12, functions=WFN,
+   bound="5 concrete (first_char, len, code a, code b) shapes; both insertion orders give the same table")
+
+# ---------------------------------------------------------------------------------------------------------------------
+# file.rs: C18 (Option reader against the real Storage resolver)
+# ---------------------------------------------------------------------------------------------------------------------
+DEC_STUB = "enc::decode -> Err (X9: no stream is decoded in these harnesses; avoids a Kani compiler ICE in third-party decoders)"
+C18_GUARDS = [r"^parser::parse_object::parse_indirect_object::<", r"^<object::stream::ObjectStream as object::Object>::from_primitive::<",
+              r"^parser::parse::<"]
+for h, t in [("file_opt_i32_free", "quick"), ("file_opt_i32_undefined", "quick"), ("file_opt_i32_beyond", "quick"),
+             ("file_opt_name_beyond", "thorough"), ("file_opt_rcref_beyond", "quick"), ("file_opt_rcref_free", "thorough"),
+             ("file_opt_maybe_undefined", "thorough")]:
+    ob(h, ["C18"], "file.rs", unwind=6, cuts=X1_ALL, guards=C18_GUARDS, stubs=[FMT_STUB, RS_STUB, DEC_STUB], timeout=900, mem_gb=12,
+       tier=t, functions=["object::<impl Object for Option<T>>::from_primitive", "file::Storage::resolve_ref",
+                          "file::StorageResolver::resolve_flags", "file::StorageResolver::get", "xref::XRefTable::get"],
+       bound="one dangling reference (%s) through the real StorageResolver, strict and tolerant mode" % h[9:])
 
 # ---------------------------------------------------------------------------------------------------------------------
 # parser/mod.rs (experimental: one level of the object parser)
